@@ -1,5 +1,6 @@
 import Comdex.Base.Line
 import Comdex.Model.Lend
+import Comdex.Model.LendAccrual
 /-! Driver for the lending-books model (property C08).
 
 Lines (tab separated):
@@ -13,14 +14,19 @@ Lines (tab separated):
   lend.init        <state>
   lend.op <name> args… <outcome> <state>                         -- outcome ∈ ok err err:basic panic
   lend.handover borrowId newInterest <outcome> <state>           -- the V2 liquidation hand-over (own trace kind: own call site)
-<state> := ctr(lendCtr,borrowCtr)  L  B  S  K  P   (six fields, records `|`-separated, record fields `:`-separated)
-  L id:owner:pool:asset:amountIn:avail
+<state> := ctr(lendCtr,borrowCtr,blockTime)  L  B  S  K  P  F  AB  AL   (nine fields, records `|`-separated, record fields `:`-separated)
+  L id:owner:pool:asset:amountIn:avail:app
   B id:lendingId:pairId:inDenom:amountIn:outDenom:amountOut:interest:stable:liq:brDenom:bridged:reserveInt
   S pool:asset:totalLend:totalBorrowed:totalStable:totalInterest
-  K acct:denom:amount        P asset:twa
-ExtB := `-` (error) | `!` (panic) | dI:dR.   The model is re-synchronised to the real state after every line.
+  K acct:denom:amount        P asset:twa        F killedApps/depreciatedPools (comma lists)
+  AB id:globalIndex:reserveGlobalIndex:lastInteraction:stableRate      AL id:globalIndex:lastInteraction:rewardTracker   (accrual state)
+External inputs: a borrow accrual slot is `dI:dR:apr:rr` | `!:apr:rr` | `-`, a lend accrual slot `reward:apr`. The RATES (apr, rr) are what
+the model consumes: it recomputes the amounts and the indices with `Model/LendAccrual.lean` from its own accrual state and the block
+time; the reported amounts are only cross-checked (DIFF `accrual`), the model's own values drive the ledger step, and the accrual
+state it derives is compared with the real records after every line (DIFF `accrual-state`).
+Hand-over: `borrowId newInterest apr:rr`.   The model is re-synchronised to the real state after every line.
 
-Monitors (evaluated on the REAL state projection): total_lend total_borrowed total_stable ltv pool_funds pledged_safe, and
+Monitors (evaluated on the REAL state projection): total_lend total_borrowed total_stable ltv ltv_exact pool_funds pledged_safe, and
 total_lend_orphaned. The three book monitors compare, per (pool, asset), the GAP between the published total and the sum over
 positions before and after the line and fire when a gap changes to a non-zero value — so a mismatch that is already there (a known
 finding earlier in the history) neither repeats on later lines nor hides a new cause. `total_lend_orphaned` replaces `total_lend` on a
@@ -34,6 +40,9 @@ open Comdex Comdex.Lend Comdex.Line
 structure St where
   cfg : Cfg := {}
   s : State := {}
+  accB : List AccB := []
+  accL : List AccL := []
+  now : Int := 0
 
 def init : St := {}
 
@@ -43,7 +52,8 @@ def splitOnNE (s : String) (sep : String) : List String := if s = "" then [] els
 
 def parseLend (r : String) : Option Lend :=
   match (r.splitOn ":").mapM parseInt? with
-  | some [id, o, p, a, ai, av] => some { id := id.toNat, owner := o.toNat, pool := p.toNat, asset := a.toNat, amountIn := ai, avail := av }
+  | some [id, o, p, a, ai, av, app] =>
+    some { id := id.toNat, owner := o.toNat, pool := p.toNat, asset := a.toNat, amountIn := ai, avail := av, app := app.toNat }
   | _ => none
 
 def parseBorrow (r : String) : Option Borrow :=
@@ -70,21 +80,64 @@ def parsePrice (r : String) : Option (Nat × Nat) :=
 
 def parseState (f : List String) : Option State :=
   match f with
-  | [ctr, l, b, s, k, p] => do
+  | [ctr, l, b, s, k, p, fl, _, _] => do
     let c ← parseNatList ctr
-    let (lc, bc) ← match c with | [x, y] => some (x, y) | _ => none
+    let (lc, bc) ← match c with | [x, y, _] => some (x, y) | _ => none
     let ls ← (splitOnNE l "|").mapM parseLend
     let bs ← (splitOnNE b "|").mapM parseBorrow
     let ss ← (splitOnNE s "|").mapM parseStats
     let ks ← (splitOnNE k "|").mapM parseBal
     let ps ← (splitOnNE p "|").mapM parsePrice
-    pure { lends := ls, borrows := bs, stats := ss, bank := ks, lendCtr := lc, borrowCtr := bc, prices := ps }
+    let (kl, dp) ← match fl.splitOn "/" with
+      | [a, b] => do pure ((← parseNatList a), (← parseNatList b))
+      | _ => none
+    pure { lends := ls, borrows := bs, stats := ss, bank := ks, lendCtr := lc, borrowCtr := bc, prices := ps, killed := kl, depPools := dp }
   | _ => none
 
-def parseExtB (s : String) : Option ExtB :=
-  if s = "-" then some .err else if s = "!" then some .panic else
-  match (s.splitOn ":").mapM parseInt? with
-  | some [a, b] => some (.val a b)
+/-- reported outcome of one `IterateBorrow` plus the rates it used (`none` = not available) -/
+structure BSlot where
+  reported : ExtB
+  rates : Option (Dec × Dec) := none     -- (borrow APR, reserve rate)
+
+def parseBSlot (s : String) : Option BSlot :=
+  if s = "-" then some { reported := .err } else
+  match s.splitOn ":" with
+  | ["!", a, r] => do pure { reported := .panic, rates := some ((← parseInt? a), (← parseInt? r)) }
+  | [x, y, a, r] => do pure { reported := .val (← parseInt? x) (← parseInt? y), rates := some ((← parseInt? a), (← parseInt? r)) }
+  | [x, y] => do pure { reported := .val (← parseInt? x) (← parseInt? y) }
+  | _ => none
+
+def parseExtB (s : String) : Option ExtB := (parseBSlot s).map (·.reported)
+
+/-- reported reward of one `IterateLends` plus the lend APR it used -/
+structure LSlot where
+  reported : Int
+  apr : Option Dec := none
+
+def parseLSlot (s : String) : Option LSlot :=
+  match s.splitOn ":" with
+  | [r, a] => do pure { reported := (← parseInt? r), apr := some (← parseInt? a) }
+  | [r] => do pure { reported := (← parseInt? r) }
+  | _ => none
+
+def parseReward (s : String) : Option Int := (parseLSlot s).map (·.reported)
+
+def parseAccB (r : String) : Option AccB :=
+  match (r.splitOn ":").mapM parseInt? with
+  | some [id, gi, rgi, last, sr] => some { id := id.toNat, gi := gi, rgi := rgi, last := last, stableRate := sr }
+  | _ => none
+def parseAccL (r : String) : Option AccL :=
+  match (r.splitOn ":").mapM parseInt? with
+  | some [id, gi, last, tr] => some { id := id.toNat, gi := gi, last := last, tracker := tr }
+  | _ => none
+
+/-- block time and accrual state carried by a state projection -/
+def parseAcc (f : List String) : Option (Int × List AccB × List AccL) :=
+  match f with
+  | [ctr, _, _, _, _, _, _, ab, al] => do
+    let c ← parseIntList ctr
+    let now ← match c with | [_, _, t] => some t | _ => none
+    pure (now, (← (splitOnNE ab "|").mapM parseAccB), (← (splitOnNE al "|").mapM parseAccL))
   | _ => none
 
 def parseIdExtB (s : String) : Option (Nat × ExtB) :=
@@ -94,7 +147,7 @@ def parseIdExtB (s : String) : Option (Nat × ExtB) :=
 
 def parseIdInt (s : String) : Option (Nat × Int) :=
   match s.splitOn "=" with
-  | [a, b] => do let i ← parseNat? a; let e ← parseInt? b; pure (i, e)
+  | [a, b] => do let i ← parseNat? a; let e ← parseReward b; pure (i, e)
   | _ => none
 
 def parsePoolAsset (s : String) : Option PoolAsset :=
@@ -105,18 +158,18 @@ def parsePoolAsset (s : String) : Option PoolAsset :=
 def parseOp (name : String) (a : List String) : Option Op :=
   match name, a with
   | "lend", [u, asset, d, amt, pool, app, r] => do
-    pure (.lend (← parseNat? u) (← parseNat? asset) (← parseNat? d) (← parseInt? amt) (← parseNat? pool) (← parseNat? app) (← parseInt? r))
+    pure (.lend (← parseNat? u) (← parseNat? asset) (← parseNat? d) (← parseInt? amt) (← parseNat? pool) (← parseNat? app) (← parseReward r))
   | "deposit", [u, id, d, amt, r] => do
-    pure (.deposit (← parseNat? u) (← parseNat? id) (← parseNat? d) (← parseInt? amt) (← parseInt? r))
+    pure (.deposit (← parseNat? u) (← parseNat? id) (← parseNat? d) (← parseInt? amt) (← parseReward r))
   | "withdraw", [u, id, d, amt, r] => do
-    pure (.withdraw (← parseNat? u) (← parseNat? id) (← parseNat? d) (← parseInt? amt) (← parseInt? r))
-  | "closeLend", [u, id, r] => do pure (.closeLend (← parseNat? u) (← parseNat? id) (← parseInt? r))
+    pure (.withdraw (← parseNat? u) (← parseNat? id) (← parseNat? d) (← parseInt? amt) (← parseReward r))
+  | "closeLend", [u, id, r] => do pure (.closeLend (← parseNat? u) (← parseNat? id) (← parseReward r))
   | "borrow", [u, lid, pid, st, dIn, aIn, dOut, aOut, e1, e2] => do
     pure (.borrow (← parseNat? u) (← parseNat? lid) (← parseNat? pid) (← parseBool? st) (← parseNat? dIn) (← parseInt? aIn)
             (← parseNat? dOut) (← parseInt? aOut) (← parseExtB e1) (← parseExtB e2))
   | "borrowAlt", [u, asset, pool, d, amt, pid, st, dOut, aOut, app, r, e1, e2] => do
     pure (.borrowAlternate (← parseNat? u) (← parseNat? asset) (← parseNat? pool) (← parseNat? d) (← parseInt? amt) (← parseNat? pid)
-            (← parseBool? st) (← parseNat? dOut) (← parseInt? aOut) (← parseNat? app) (← parseInt? r) (← parseExtB e1) (← parseExtB e2))
+            (← parseBool? st) (← parseNat? dOut) (← parseInt? aOut) (← parseNat? app) (← parseReward r) (← parseExtB e1) (← parseExtB e2))
   | "depositBorrow", [u, id, d, amt, e] => do
     pure (.depositBorrow (← parseNat? u) (← parseNat? id) (← parseNat? d) (← parseInt? amt) (← parseExtB e))
   | "draw", [u, id, d, amt, e] => do
@@ -124,7 +177,7 @@ def parseOp (name : String) (a : List String) : Option Op :=
   | "repay", [u, id, d, amt, e] => do
     pure (.repay (← parseNat? u) (← parseNat? id) (← parseNat? d) (← parseInt? amt) (← parseExtB e))
   | "closeBorrow", [u, id, e] => do pure (.closeBorrow (← parseNat? u) (← parseNat? id) (← parseExtB e))
-  | "repayWithdraw", [u, id, e, r] => do pure (.repayWithdraw (← parseNat? u) (← parseNat? id) (← parseExtB e) (← parseInt? r))
+  | "repayWithdraw", [u, id, e, r] => do pure (.repayWithdraw (← parseNat? u) (← parseNat? id) (← parseExtB e) (← parseReward r))
   | "calc", [u, bs, ls] => do
     pure (.calcAll (← parseNat? u) (← (splitOnNE bs ",").mapM parseIdExtB) (← (splitOnNE ls ",").mapM parseIdInt))
   | "fundModule", [u, pool, asset, d, amt] => do
@@ -134,6 +187,9 @@ def parseOp (name : String) (a : List String) : Option Op :=
   | "setPrice", [asset, twa] => do
     let t ← parseNat? twa
     pure (.setPrice (← parseNat? asset) (if t = 0 then none else some t))
+  | "setKill", [app, on] => do pure (.setKill (← parseNat? app) (← parseBool? on))
+  | "setDepreciated", [pool] => do pure (.setDepreciated (← parseNat? pool))
+  | "handover", [id, ni, _] => do pure (.handover (← parseNat? id) (← parseInt? ni))
   | "handover", [id, ni] => do pure (.handover (← parseNat? id) (← parseInt? ni))
   | _, _ => none
 
@@ -144,7 +200,7 @@ def insertBy {α} (lt : α → α → Bool) (x : α) : List α → List α
   | y :: ys => if lt x y then x :: y :: ys else y :: insertBy lt x ys
 def sortBy {α} (lt : α → α → Bool) (l : List α) : List α := l.foldr (insertBy lt) []
 
-def showLend (l : Lend) : String := s!"{l.id}:{l.owner}:{l.pool}:{l.asset}:{l.amountIn}:{l.avail}"
+def showLend (l : Lend) : String := s!"{l.id}:{l.owner}:{l.pool}:{l.asset}:{l.amountIn}:{l.avail}:{l.app}"
 def showBorrow (b : Borrow) : String :=
   s!"{b.id}:{b.lendingId}:{b.pairId}:{b.inDenom}:{b.amountIn}:{b.outDenom}:{b.amountOut}:{b.interest}:{b.stable}:{b.liq}:{b.brDenom}:{b.bridged}:{b.reserveInt}"
 def showStats (s : Stats) : String := s!"{s.pool}:{s.asset}:{s.totalLend}:{s.totalBorrowed}:{s.totalStable}:{s.totalInterest}"
@@ -156,6 +212,7 @@ structure Canon where
   stats : String
   bank : String
   prices : String
+  flags : String
   deriving DecidableEq
 
 def canon (cfg : Cfg) (s : State) : Canon :=
@@ -167,7 +224,8 @@ def canon (cfg : Cfg) (s : State) : Canon :=
     borrows := "|".intercalate ((sortBy (fun a b => a.id < b.id) s.borrows).map showBorrow),
     stats := "|".intercalate ((sortBy (fun a b => a.pool < b.pool || (a.pool == b.pool && a.asset < b.asset)) s.stats).map showStats),
     bank := "|".intercalate (bal.map fun e => s!"{e.1.1}:{e.1.2}:{e.2}"),
-    prices := "|".intercalate ((sortBy (fun a b => a.1 < b.1) s.prices).map fun e => s!"{e.1}:{e.2}") }
+    prices := "|".intercalate ((sortBy (fun a b => a.1 < b.1) s.prices).map fun e => s!"{e.1}:{e.2}"),
+    flags := showNatList (sortBy (fun a b => a < b) s.killed.eraseDups) ++ "/" ++ showNatList (sortBy (fun a b => a < b) s.depPools.eraseDups) }
 
 def diffCanon (m i : Canon) : List String :=
   (if m.ctr = i.ctr then [] else [s!"ctr model={m.ctr} impl={i.ctr}"]) ++
@@ -175,7 +233,8 @@ def diffCanon (m i : Canon) : List String :=
   (if m.borrows = i.borrows then [] else [s!"borrows model={m.borrows} impl={i.borrows}"]) ++
   (if m.stats = i.stats then [] else [s!"stats model={m.stats} impl={i.stats}"]) ++
   (if m.bank = i.bank then [] else [s!"bank model={m.bank} impl={i.bank}"]) ++
-  (if m.prices = i.prices then [] else [s!"prices model={m.prices} impl={i.prices}"])
+  (if m.prices = i.prices then [] else [s!"prices model={m.prices} impl={i.prices}"]) ++
+  (if m.flags = i.flags then [] else [s!"flags model={m.flags} impl={i.flags}"])
 
 /-! ### monitors on the real state -/
 
@@ -204,6 +263,24 @@ def ltvHolds (cfg : Cfg) (s : State) (b : Borrow) (newInter : Bool) : Bool :=
         else true
       main && bridge
 
+/-- the same decision in its exact integer form (`ExactLtv`, Props/C08 `ltv_exact`): evaluated on the real accepted operation -/
+def ltvExactHolds (cfg : Cfg) (s : State) (b : Borrow) (newInter : Bool) : Bool :=
+  match cfg.pair? b.pairId with
+  | none => false
+  | some pair =>
+    match cfg.rates? pair.assetIn with
+    | none => false
+    | some rates =>
+      let collAsset := match cfg.rates.find? (fun r => r.cAsset == b.inDenom) with | some r => r.asset | none => 0
+      let ltv := if pair.eMode then rates.eLtv else rates.ltv
+      let main := exactLtvOn cfg s.prices ltv b.amountIn collAsset (b.amountOut + Dec.truncateInt b.interest) pair.assetOut
+      let bridge := if newInter then
+          match cfg.rates? b.brDenom with
+          | none => false
+          | some rt => exactLtvOn cfg s.prices rt.ltv b.bridged b.brDenom b.amountOut pair.assetOut
+        else true
+      main && bridge
+
 /-- the borrow an accepted borrow-type message created or topped up -/
 def touchedBorrow (pre post : State) (u pairId : Nat) : Option (Borrow × Bool) :=
   if post.borrowCtr > pre.borrowCtr then (getBorrow post.borrows post.borrowCtr).map (·, true)
@@ -213,7 +290,8 @@ def touchedBorrow (pre post : State) (u pairId : Nat) : Option (Borrow × Bool) 
 
 def monBorrow (cfg : Cfg) (pre post : State) (u : Nat) (b : Borrow) (isNew : Bool) (dOut : Nat) (y : Int) : List String :=
   let inter := match cfg.pair? b.pairId with | some p => p.inter | none => false
-  let m1 := if ltvHolds cfg post b (isNew && inter) then [] else ["ltv"]
+  let m1 := (if ltvHolds cfg post b (isNew && inter) then [] else ["ltv"]) ++
+            (if ltvExactHolds cfg post b (isNew && inter) then [] else ["ltv_exact"])
   let m2 := match cfg.pair? b.pairId with
     | none => ["pool_funds"]
     | some pair =>
@@ -302,37 +380,191 @@ def extNonneg : Op → Bool
   | .calcAll _ _ ls => ls.all fun e => e.2 ≥ 0
   | _ => true
 
+/-! ### accrual: the model's own amounts and indices -/
+
+/-- the accrual slots of a line in the order the handler performs them: (borrow slots, lend slots) as raw strings -/
+def slotStrings (name : String) (a : List String) : List String × List String :=
+  match name, a with
+  | "lend", [_, _, _, _, _, _, r] => ([], [r])
+  | "deposit", [_, _, _, _, r] => ([], [r])
+  | "withdraw", [_, _, _, _, r] => ([], [r])
+  | "closeLend", [_, _, r] => ([], [r])
+  | "borrow", [_, _, _, _, _, _, _, _, e1, e2] => ([e1, e2], [])
+  | "borrowAlt", [_, _, _, _, _, _, _, _, _, _, r, e1, e2] => ([e1, e2], [r])
+  | "depositBorrow", [_, _, _, _, e] => ([e], [])
+  | "draw", [_, _, _, _, e] => ([e], [])
+  | "repay", [_, _, _, _, e] => ([e], [])
+  | "closeBorrow", [_, _, e] => ([e], [])
+  | "repayWithdraw", [_, _, e, r] => ([e], [r])
+  | "calc", [_, bs, ls] =>
+    ((splitOnNE bs ",").map fun x => (x.splitOn "=").getD 1 "-", (splitOnNE ls ",").map fun x => (x.splitOn "=").getD 1 "0")
+  | _, _ => ([], [])
+
+/-- the position each slot accrues (0 = none) -/
+def slotTargets (pre : State) (op : Op) : List Nat × List Nat :=
+  match op with
+  | .lend u asset _ _ pool _ _ => ([], [match findLendByAsset pre u asset pool with | some l => l.id | none => 0])
+  | .deposit _ k _ _ _ => ([], [k])
+  | .withdraw _ k _ _ _ => ([], [k])
+  | .closeLend _ k _ => ([], [k])
+  | .borrow u _ pid _ _ _ _ _ _ _ =>
+    let t := match findBorrowByPair pre u pid with | some b => b.id | none => 0
+    ([t, t], [])
+  | .borrowAlternate u asset pool _ _ pid _ _ _ _ _ _ _ =>
+    let t := match findBorrowByPair pre u pid with | some b => b.id | none => 0
+    ([t, t], [match findLendByAsset pre u asset pool with | some l => l.id | none => 0])
+  | .depositBorrow _ k _ _ _ => ([k], [])
+  | .draw _ k _ _ _ => ([k], [])
+  | .repay _ k _ _ _ => ([k], [])
+  | .closeBorrow _ k _ => ([k], [])
+  | .repayWithdraw _ k _ _ => ([k], [match getBorrow pre.borrows k with | some b => b.lendingId | none => 0])
+  | .calcAll _ bs ls => (bs.map (·.1), ls.map (·.1))
+  | _ => ([], [])
+
+def setSlots (op : Op) (bs : List ExtB) (rs : List Int) : Op :=
+  let b0 := bs.getD 0 .err
+  let b1 := bs.getD 1 .err
+  let r0 := rs.getD 0 0
+  match op with
+  | .lend u a d amt p app _ => .lend u a d amt p app r0
+  | .deposit u k d amt _ => .deposit u k d amt r0
+  | .withdraw u k d amt _ => .withdraw u k d amt r0
+  | .closeLend u k _ => .closeLend u k r0
+  | .borrow u k pid st dIn aIn dOut aOut _ _ => .borrow u k pid st dIn aIn dOut aOut b0 b1
+  | .borrowAlternate u a p d amt pid st dOut aOut app _ _ _ => .borrowAlternate u a p d amt pid st dOut aOut app r0 b0 b1
+  | .depositBorrow u k d amt _ => .depositBorrow u k d amt b0
+  | .draw u k d amt _ => .draw u k d amt b0
+  | .repay u k d amt _ => .repay u k d amt b0
+  | .closeBorrow u k _ => .closeBorrow u k b0
+  | .repayWithdraw u k _ _ => .repayWithdraw u k b0 r0
+  | .calcAll u bl ll => .calcAll u ((bl.zip bs).map fun (x, e) => (x.1, e)) ((ll.zip rs).map fun (x, r) => (x.1, r))
+  | o => o
+
+def accBOf (l : List AccB) (k : Nat) : Option AccB := l.find? fun a => a.id == k
+def accLOf (l : List AccL) (k : Nat) : Option AccL := l.find? fun a => a.id == k
+def putAccB (l : List AccB) (v : AccB) : List AccB := l.map fun a => if a.id = v.id then v else a
+def putAccL (l : List AccL) (v : AccL) : List AccL := l.map fun a => if a.id = v.id then v else a
+
+/-- run the borrow slots in order on the accrual store: model ext per slot, store after the handler recorded the indices -/
+def runBSlots (pre : State) (now : Int) : List AccB → List (Nat × BSlot) → List ExtB × List AccB
+  | acc, [] => ([], acc)
+  | acc, (k, sl) :: rest =>
+    match accBOf acc k, getBorrow pre.borrows k, sl.rates with
+    | some a, some b, some (apr, rr) =>
+      let r := accrueBorrow a b.amountOut b.stable apr (some rr) now
+      let acc' := match r.ext with | .val _ _ => putAccB acc (a.after r now) | _ => acc
+      let (es, accF) := runBSlots pre now acc' rest
+      (r.ext :: es, accF)
+    | some _, some _, none =>
+      -- the reserve rate was not available: that IS IterateBorrow's error
+      let (es, accF) := runBSlots pre now acc rest
+      ((if sl.reported = .panic then .panic else .err) :: es, accF)
+    | _, _, _ =>
+      let (es, accF) := runBSlots pre now acc rest
+      (sl.reported :: es, accF)
+
+def runLSlots (pre : State) (now : Int) : List AccL → List (Nat × LSlot) → List Int × List AccL
+  | acc, [] => ([], acc)
+  | acc, (k, sl) :: rest =>
+    match accLOf acc k, getLend pre.lends k, sl.apr with
+    | some a, some l, some apr =>
+      let r := accrueLend a l.amountIn apr now
+      let (rs, accF) := runLSlots pre now (putAccL acc (a.after r now)) rest
+      (r.reward :: rs, accF)
+    | _, _, _ =>
+      let (rs, accF) := runLSlots pre now acc rest
+      (sl.reported :: rs, accF)
+
+def showExtB : ExtB → String
+  | .val a b => s!"{a}:{b}"
+  | .err => "-"
+  | .panic => "!"
+
+def showAccB (a : AccB) : String := s!"{a.id}:{a.gi}:{a.rgi}:{a.last}:{a.stableRate}"
+def showAccL (a : AccL) : String := s!"{a.id}:{a.gi}:{a.last}:{a.tracker}"
+
 /-! ### one line -/
 
 def handleOp (st : St) (seq name : String) (args : List String) (outcome : String) (implF : List String) : St × List String :=
-  match parseOp name args, parseState implF with
-  | none, _ => (st, [s!"BAD\t{seq}\tcannot parse op {name} {args}"])
-  | _, none => (st, [s!"BAD\t{seq}\tcannot parse state"])
-  | some op, some impl =>
+  match parseOp name args, parseState implF, parseAcc implF with
+  | none, _, _ => (st, [s!"BAD\t{seq}\tcannot parse op {name} {args}"])
+  | _, none, _ => (st, [s!"BAD\t{seq}\tcannot parse state"])
+  | _, _, none => (st, [s!"BAD\t{seq}\tcannot parse accrual state"])
+  | some opR, some impl, some (now, implB, implL) =>
     let pre := st.s
+    -- 1. the model's own accrual amounts, from the rates printed on the line
+    let (bStr, lStr) := slotStrings name args
+    let (bT, lT) := slotTargets pre opR
+    let bSl := (bStr.map fun x => (parseBSlot x).getD { reported := .err })
+    let lSl := (lStr.map fun x => (parseLSlot x).getD { reported := 0 })
+    let (bExt, accB1) := runBSlots pre now st.accB (bT.zip bSl)
+    let (lRew, accL1) := runLSlots pre now st.accL (lT.zip lSl)
+    -- calc: the handler skips borrows whose guards fail — their accrual state must not move
+    let accB1 := match opR with
+      | .calcAll u bs _ => accB1.map fun a =>
+          if bs.any (fun x => x.1 == a.id) && !(calcBorrow pre u a.id (.val 0 0)).toBool then (accBOf st.accB a.id).getD a else a
+      | _ => accB1
+    let accDiff :=
+      ((bT.zip (bSl.zip bExt)).filterMap fun (k, sl, e) =>
+          if k != 0 && (accBOf st.accB k).isSome && sl.rates.isSome && e != sl.reported
+          then some s!"DIFF\t{seq}\t{name}\taccrual borrow {k} model={showExtB e} impl={showExtB sl.reported}" else none) ++
+      ((lT.zip (lSl.zip lRew)).filterMap fun (k, sl, r) =>
+          if k != 0 && (accLOf st.accL k).isSome && sl.apr.isSome && r != sl.reported
+          then some s!"DIFF\t{seq}\t{name}\taccrual lend {k} model={r} impl={sl.reported}" else none)
+    -- hand-over: the interest after `CalculateBorrowInterestForLiquidation` is the model's own
+    let (op, accB1, hoDiff) := match opR, args with
+      | .handover k ni, [_, _, rates] =>
+        match accBOf st.accB k, getBorrow pre.borrows k, parseBSlot ("0:0:" ++ rates) with
+        | some a, some b, some sl =>
+          match sl.rates with
+          | some (apr, rr) =>
+            let r := accrueBorrow a b.amountOut b.stable apr (some rr) now
+            match r.ext with
+            | .val dI _ =>
+              let ni' := b.interest + dI
+              (Op.handover k ni', putAccB accB1 (a.after r now),
+               if ni' = ni then [] else [s!"DIFF\t{seq}\t{name}\taccrual borrow {k} interest model={ni'} impl={ni}"])
+            | _ => (opR, accB1, [s!"DIFF\t{seq}\t{name}\taccrual borrow {k} model fails, impl liquidated"])
+          | none => (opR, accB1, [])
+        | _, _, _ => (opR, accB1, [])
+      | _, _ => (setSlots opR bExt lRew, accB1, [])
     let ci := canon st.cfg impl
     let bad := if extNonneg op then [] else [s!"BAD\t{seq}\tnegative external reward"]
-    let diffs :=
+    let (modelOk, diffs) :=
       match step st.cfg pre op with
       | .ok m =>
-        if outcome = "ok" then (diffCanon (canon st.cfg m) ci).map fun d => s!"DIFF\t{seq}\t{name}\t{d}"
-        else [s!"DIFF\t{seq}\t{name}\tmodel=ok impl={outcome}"]
+        (true, if outcome = "ok" then (diffCanon (canon st.cfg m) ci).map fun d => s!"DIFF\t{seq}\t{name}\t{d}"
+               else [s!"DIFF\t{seq}\t{name}\tmodel=ok impl={outcome}"])
       | .error e =>
-        if outcome = "ok" then [s!"DIFF\t{seq}\t{name}\tmodel=err({e}) impl=ok"]
-        else (diffCanon (canon st.cfg pre) ci).map fun d => s!"DIFF\t{seq}\t{name}\trejected message changed state: {d}"
+        (false, if outcome = "ok" then [s!"DIFF\t{seq}\t{name}\tmodel=err({e}) impl=ok"]
+                else (diffCanon (canon st.cfg pre) ci).map fun d => s!"DIFF\t{seq}\t{name}\trejected message changed state: {d}")
+    -- 2. accrual state: the model's (only moved by an accepted message) against the real records
+    let accBm := if modelOk && outcome = "ok" then accB1 else st.accB
+    let accLm := if modelOk && outcome = "ok" then accL1 else st.accL
+    let isHandover := match op with | .handover .. => true | _ => false
+    let stDiff :=
+      (implB.filterMap fun (r : AccB) => match accBOf accBm r.id with
+        | some m =>
+          let m := if isHandover then { m with stableRate := r.stableRate } else m     -- rebalanced stable rate: a rate, taken as input
+          if m = r then none else some s!"DIFF\t{seq}\t{name}\taccrual-state borrow model={showAccB m} impl={showAccB r}"
+        | none => none) ++
+      (implL.filterMap fun (r : AccL) => match accLOf accLm r.id with
+        | some m => if m = r then none else some s!"DIFF\t{seq}\t{name}\taccrual-state lend model={showAccL m} impl={showAccL r}"
+        | none => none)
     let mons := if outcome = "ok" then monitors st.cfg pre impl op else []
     let gl := gapChanged (lendGaps pre) (lendGaps impl)
     let lendName := if orphanedBy pre impl op then "total_lend_orphaned" else "total_lend"
     let mons := mons ++ (if gl then [lendName] else [])
                      ++ (if gapChanged (borGaps st.cfg false pre) (borGaps st.cfg false impl) then ["total_borrowed"] else [])
                      ++ (if gapChanged (borGaps st.cfg true pre) (borGaps st.cfg true impl) then ["total_stable"] else [])
-    ({ st with s := impl }, bad ++ diffs ++ mons.map fun m => s!"MON\t{seq}\t{m}\t{name}")
+    ({ st with s := impl, accB := implB, accL := implL, now := now },
+     bad ++ accDiff ++ hoDiff ++ diffs ++ stDiff ++ mons.map fun m => s!"MON\t{seq}\t{m}\t{name}")
 
 def opLine (st : St) (seq name : String) (rest : List String) : St × List String :=
   let n := rest.length
-  if n < 7 then (st, [s!"BAD\t{seq}\top fields"]) else
-  let args := rest.take (n - 7)
-  match rest.drop (n - 7) with
+  if n < 10 then (st, [s!"BAD\t{seq}\top fields"]) else
+  let args := rest.take (n - 10)
+  match rest.drop (n - 10) with
   | outcome :: implF => handleOp st seq name args outcome implF
   | [] => (st, [s!"BAD\t{seq}\top fields"])
 
@@ -373,9 +605,11 @@ def handle (st : St) (seq : String) (f : List String) : St × List String :=
     match parseState rest with
     | some s =>
       -- the model's genesis must be the real genesis: zero totals for every (pool, asset)
-      let g := Comdex.Lend.init st.cfg s.bank s.prices
+      let g := { Comdex.Lend.init st.cfg s.bank s.prices with killed := s.killed, depPools := s.depPools }
       let d := (diffCanon (canon st.cfg g) (canon st.cfg s)).map fun x => s!"DIFF\t{seq}\tinit\t{x}"
-      ({ st with s := s }, d)
+      match parseAcc rest with
+      | some (now, ab, al) => ({ st with s := s, accB := ab, accL := al, now := now }, d)
+      | none => ({ st with s := s }, d)
     | none => bad "init state"
   | "lend.handover" :: rest => opLine st seq "handover" rest
   | "lend.op" :: name :: rest => opLine st seq name rest
